@@ -21,7 +21,7 @@ def value_arrays(maxlen):
 
 def weight_vectors(n, tier):
   out = [("none", None), ("ones", np.ones(n))]
-  if n <= (4 if tier == "quick" else 6):
+  if n <= (4 if tier == "quick" else 5):
     for w in itertools.product((1.0, 3.0), repeat=n):
       if len(set(w)) > 1:
         out.append(("w13", np.array(w)))
@@ -197,10 +197,11 @@ def work(ctx, item):
   if item.get("family") == "distinct":
     return work_distinct(ctx, item)
   n, first = item["n"], item["first"]
+  head = (first,) + ((item["second"],) if "second" in item else ())
   total = nontriv = accepted = 0
   pwl_checked = set()
-  for rest in itertools.product(LETTERS, repeat=n - 1):
-    values = np.array((first,) + rest, dtype=np.float64)
+  for rest in itertools.product(LETTERS, repeat=n - len(head)):
+    values = np.array(head + rest, dtype=np.float64)
     for wname, w in weight_vectors(n, ctx.tier):
       for cname, cmin, cmax in CLIPS:
         for default in (None, 0.0):
@@ -238,20 +239,21 @@ def work(ctx, item):
         if msg:
           ctx.violation(dict(violated="helper", mode=mode, clip=cname), case, msg)
   ctx.add(evaluations=total, nontrivial=nontriv, traces=total)
-  ctx.tab("arrays_by_length", n, 4 ** (n - 1))
+  ctx.tab("arrays_by_length", n, 4 ** (n - len(head)))
   ctx.tab("pwl_acceptance_checks", "distinct_keypoint_vectors", accepted)
   ctx.sample(dict(example_values=[first] + [5.0] * (n - 1), n=n), limit=3)
 
 
 def run(ctx):
   maxlen = 5 if ctx.quick else 6
-  items = [dict(n=n, first=f) for n in range(1, maxlen + 1) for f in LETTERS]
+  items = [dict(n=n, first=f) for n in range(1, min(maxlen, 4) + 1) for f in LETTERS]
+  items += [dict(n=n, first=f, second=g) for n in range(5, maxlen + 1) for f in LETTERS for g in LETTERS]
   top = 8 if ctx.quick else 10
   items += [dict(family="distinct", top=top, stride=8, phase=p) for p in range(8)]
   items = alpha.rotate(items, ctx.seed)
   ctx.rule = (
       "ALL value arrays of length 1..%d over {0,1,2,5} x weights {None, ones, all non-constant words "
-      "over {1,3} (len<=4)} x 7 clip modes (incl. non-binding, collapsing, fractional) x default "
+      "over {1,3} (len<=4 quick / 5 thorough; two fixed patterns above)} x 7 clip modes (incl. non-binding, collapsing, fractional) x default "
       "{None,0} x num_keypoints 2..5 x {quantiles, uniform} x {mean,sum}; feature/label helpers on "
       "the same arrays. Non-trivial = case whose clipped data has >= 2 distinct values." % maxlen)
   ctx.assumptions += ["zero / negative example weights are outside the enumerated alphabet",
